@@ -7,8 +7,13 @@ Driver glue for `life.run` records (C11).
 * `H1/H0:<clause>`: the monitors of `Spec/LifecycleSpec.lean` on the observed trace.
 * `EQ/NE`: trace validation — the observed trace is accepted by the LTS of `Model/Lifecycle.lean`
   (set-of-states simulation; unobserved program steps are τ).  Deliveries are logged by a goroutine of the
-  harness and may be recorded late relative to the client's own events, so `deliver` is a τ step and the
+  harness and may be recorded late relative to the client's own events, so `takeFrame`/`deliver` are τ steps and the
   observed `del` events are checked by count (never more observed than the model has delivered, equal at the end).
+  The panel's `tx` events are fed byte by byte (`byteArrive fin`, `fin` from the frame boundaries of the scripted
+  stream), so a drop or a cancellation lands on its exact byte offset.  The model clock follows the trace
+  timestamps (`tick`), stopping at every timer expiry in between; the retry periods are the script's minus the
+  monitor's `tolEarly`.  `feed:i` = `offer`, `cstop`/`cres` = `consumerStop`/`consumerResume`, `ovr:k` = the four bytes
+  of an over-limit header.
 -/
 namespace RawPanelVerif.Driver.Lifecycle
 open RawPanelVerif RawPanelVerif.Wire
@@ -66,6 +71,8 @@ def parseEv (tok : String) : Option TEv := do
       | "hk", ["release"] => some .hkRelease
       | "hk", p :: _ => some (.hk p)
       | "lag", [n] => n.toNat?.map .lag
+      | "cstop", _ => some .cstop
+      | "cres", _ => some .cres
       | "end", _ => some .fin
       | _, _ => some (.other tok)
     pure { t, e }
@@ -76,17 +83,31 @@ def parseTrace (impl : String) : Option (List TEv) :=
 
 /-! ## LTS simulation -/
 open RawPanelVerif.Lifecycle in
+/-- arrival flags of the bytes `prev .. off-1` of the scripted stream: a byte completes a frame when the Spec's count
+of complete frames grows with it -/
+def finFlags (sc : Script) (prev off : Nat) : List Bool :=
+  (List.range (off - prev)).map (fun j =>
+    decide (Spec.Lifecycle.framesIn sc (prev + j + 1) > Spec.Lifecycle.framesIn sc (prev + j)))
+
+open RawPanelVerif.Lifecycle in
+/-- the probe's verdict for the scripted panel (C12 owns the classification; only `readFault` reads it) -/
+def modeBinary : Mode → Bool
+  | .bin | .late => true
+  | _ => false
+
+open RawPanelVerif.Lifecycle in
 /-- observable labels of one trace event (in order), given the bytes already sent per connection -/
 def obsOf (sc : Script) (sent : List (Nat × Nat)) (nconns : Nat) (x : TEv) (tokRaw : String) : List Lbl × List (Nat × Nat) :=
   match x.e with
-  | .acc _ => ([.dialOk], sent)
+  | .acc _ => ([.dialOk (modeBinary sc.mode)], sent)
   | .pcl _ _ => ([.peerClose], sent)
   | .cancel => ([.cancel], sent)
   | .cancel2 => ([.cancel], sent)
+  | .cstop => ([.consumerStop], sent)
+  | .cres => ([.consumerResume], sent)
   | .tx k off =>
     let prev := ((sent.find? (·.1 = k)).map (·.2)).getD 0
-    let n := Spec.Lifecycle.framesIn sc off - Spec.Lifecycle.framesIn sc prev
-    (List.replicate n .frameComplete, (k, max off prev) :: sent.filter (·.1 ≠ k))
+    ((finFlags sc prev off).map .byteArrive, (k, max off prev) :: sent.filter (·.1 ≠ k))
   | .con _ _ => ([.onConnect], sent)
   | .dis _ b => ([.onDisconnect b], sent)
   | .ret => ([.ret], sent)
@@ -95,13 +116,18 @@ def obsOf (sc : Script) (sent : List (Nat × Nat)) (nconns : Nat) (x : TEv) (tok
     match (tokRaw.splitOn ":").getLast?.bind String.toNat? with
     | some i => if i ≥ 1 ∧ i ≤ nconns then ([.writerStart (nconns - i)], sent) else ([], sent)
     | none => ([], sent)
+  | .other _ =>
+    match (tokRaw.splitOn ":").drop 1 with
+    | "feed" :: _ => ([.offer], sent)
+    | "ovr" :: _ => (List.replicate 4 (.byteArrive false), sent)
+    | _ => ([], sent)
   | _ => ([], sent)
 
 open RawPanelVerif.Lifecycle in
 def tauLabels (s : St) (hooked : Bool) : List Lbl :=
-  [.dialFail, .noConnTimer, .spawnWriter, .readErr, .closeQuit, .connClose, .sleepDone, .deliver]
+  [.dialFail, .noConnTimer, .noConnDrain, .spawnWriter, .takeFrame, .deliver, .readErr, .readFault, .closeQuit, .connClose, .sleepDone]
   ++ (List.range s.conns.length).flatMap (fun i =>
-      (if hooked then [] else [Lbl.writerStart i]) ++ [.writerSeesCancel i, .writerSeesQuit i])
+      (if hooked then [] else [Lbl.writerStart i]) ++ [.writerSeesCancel i, .writerSeesQuit i, .writerTake i, .writeDone i, .writeErr i])
 
 open RawPanelVerif.Lifecycle in
 /-- writers of earlier connections influence no observable guard: run them to completion at once
@@ -111,11 +137,26 @@ def settleOld (hooked : Bool) (s : St) : St :=
   | [] => s
   | c :: rest =>
     let rest' := rest.map (fun o =>
-      if (o.w = .running ∨ (o.w = .spawned ∧ !hooked)) ∧ (o.quit ∨ s.cancelled) then { o with w := .exited } else o)
+      if (o.w = .running ∨ o.w = .writing ∨ (o.w = .spawned ∧ !hooked)) ∧ (o.quit ∨ s.cancelled) then { o with w := .exited } else o)
     { s with conns := c :: rest' }
 
 open RawPanelVerif.Lifecycle in
-def norm (hooked : Bool) (s : St) : St := settleOld hooked { s with log := [], wg := 0 }
+/-- a connection the reader has left (or an earlier one): which bytes arrived when no longer matters, only how many
+frames did — forget the arrival order so that branches that differ only in it fall together -/
+def canonRx (c : Conn) : Conn := { c with rx := List.replicate c.arrived true }
+
+open RawPanelVerif.Lifecycle in
+def canonConns (s : St) : St :=
+  match s.conns with
+  | [] => s
+  | c :: rest => { s with conns := (if s.phase.reading then c else canonRx c) :: rest.map canonRx }
+
+open RawPanelVerif.Lifecycle in
+/-- erase what no guard reads (history, wait group); `offered` is kept as "something has been offered" (sticky: once the
+application has started to offer lists, a list may be pending at any later time — an over-approximation that keeps the
+state sets small) -/
+def norm (hooked : Bool) (s : St) : St :=
+  canonConns (settleOld hooked { s with log := [], stamps := [], wg := 0, offered := if s.offered > 0 then 2 else 0 })
 
 open RawPanelVerif.Lifecycle in
 partial def closure (hooked : Bool) (todo seen : List St) : List St :=
@@ -128,6 +169,24 @@ partial def closure (hooked : Bool) (todo seen : List St) : List St :=
 
 open RawPanelVerif.Lifecycle in
 def dedup (l : List St) : List St := l.foldl (fun acc s => if acc.contains s then acc else s :: acc) []
+
+open RawPanelVerif.Lifecycle in
+/-- let the model clock run up to the time `t` of the next observation, stopping at every timer / sleep expiry on
+the way (a τ step such as `noConnTimer` → `dialFail` may start the next timer at that instant) -/
+def advance (hooked : Bool) (t : Nat) : Nat → List St → List St
+  | 0, S => S
+  | fuel + 1, S =>
+    let S := closure hooked S []
+    match S.head? with
+    | none => S
+    | some s0 =>
+      let now := s0.now
+      if t ≤ now then S else
+      let wakes := S.filterMap (fun s =>
+        if (s.phase = .noConnWait ∨ s.phase = .retrySleep) ∧ now < s.wake ∧ s.wake < t then some s.wake else none)
+      let target := wakes.foldl min t
+      let S' := dedup (S.map (fun s => { s with now := target }))
+      if target = t then S' else advance hooked t fuel S'
 
 open RawPanelVerif.Lifecycle in
 def totalDelivered (s : St) : Nat := s.conns.foldl (fun n c => n + c.delivered) 0
@@ -147,7 +206,8 @@ open RawPanelVerif.Lifecycle in
 /-- set-of-states simulation over the trace -/
 def simulate (sc : Script) (toks : List String) (tr : List TEv) : SimRes := Id.run do
   let hooked := tr.any (fun x => match x.e with | .hk _ => true | _ => false)
-  let mut S : List St := [norm hooked Lifecycle.init]
+  let s0 := Lifecycle.initWith (Spec.Lifecycle.ncMs sc - Spec.Lifecycle.tolEarly) (Spec.Lifecycle.rcMs sc - Spec.Lifecycle.tolEarly)
+  let mut S : List St := [norm hooked s0]
   let mut sent : List (Nat × Nat) := []
   let mut dels : Nat := 0
   let mut idx : Nat := 0
@@ -155,6 +215,7 @@ def simulate (sc : Script) (toks : List String) (tr : List TEv) : SimRes := Id.r
   let mut seenCancel := false
   for (x, tok) in tr.zip toks do
     if x.e = .fin then break
+    S := advance hooked x.t 64 S
     S := closure hooked S []
     -- a `del` observation: some state must have delivered at least that many
     match x.e with
@@ -166,7 +227,8 @@ def simulate (sc : Script) (toks : List String) (tr : List TEv) : SimRes := Id.r
       -- goroutine census: the main loop (unless returned) + the writers that have not exited
       -- (the snapshot is not atomic with the log position: an upper bound only; not when the hook parks a writer)
       if sc.park = 0 then
-        S := S.filter (fun s => n ≤ (if s.phase = .returned then 0 else 1) + (s.conns.filter (fun c => c.w = .spawned ∨ c.w = .running)).length)
+        S := S.filter (fun s => n ≤ (if s.phase = .returned then 0 else 1)
+          + (s.conns.filter (fun c => c.w = .spawned ∨ c.w = .running ∨ c.w = .writing)).length)
       if S.isEmpty then return { ok := false, why := s!"reject@{idx}:{tok}", cancelPhases := cph }
     | _ => pure ()
     if (x.e = .cancel ∨ x.e = .cancelfb) ∧ !seenCancel then
@@ -176,7 +238,7 @@ def simulate (sc : Script) (toks : List String) (tr : List TEv) : SimRes := Id.r
     let (ls, sent') := obsOf sc sent nconns x tok
     sent := sent'
     for l in ls do
-      if l = .frameComplete then
+      if (match l with | .byteArrive _ => true | _ => false) then
         -- bytes arriving when the client no longer reads this connection have no effect on it
         S := dedup (S.map (fun s => match step false s l with | some s' => norm hooked s' | none => s))
       else
